@@ -5,7 +5,9 @@ from .. import scncheck
 from ..gen.progs import push, op
 from ..ref import ed25519 as E
 
-INV = ['OnlyRightToLeft', 'WrongScalarFails', 'RightScalarOnly', 'ReleaseExact', 'SetupConsistent', 'CascadeCompletes']
+INV = ['OnlyRightToLeft', 'WrongScalarFails', 'RightScalarOnly', 'ReleaseExact', 'SetupConsistent', 'CascadeCompletes', 'RefundOnlyOwn']
+CREATE = 1_700_000_000
+TIMEOUT = 3600
 _chains = {}
 
 
@@ -22,13 +24,25 @@ class Chain:
     """a real AMHL chain of n hops: setup, per-hop adapter witnesses, keys via the release cascade"""
 
     def __init__(self, n, seed, rng, refunds=False):
+        """refunds: False (none), True (a random subset of hops), or the set of hop indices that have refund keys"""
         F, T, AMHL = _impl()
         self.n = n
         self.seeds = [rng.randbytes(32) for _ in range(n)]
         self.pks = [E.public_key(s) for s in self.seeds]
         self.sf = [{'sigfield1': b'hop %d' % i, 'sigfield2': rng.randbytes(8)} for i in range(n)]
-        refund = {self.pks[i]: E.public_key(rng.randbytes(32)) for i in range(n) if refunds and rng.random() < 0.6} or None
-        self.res = T.setup_amhl(seed, list(self.pks), refund_pubkeys=refund)
+        self.rseeds = [rng.randbytes(32) for _ in range(n)]
+        if isinstance(refunds, (set, frozenset, list, tuple)):
+            hops = set(refunds)
+        else:
+            hops = {i for i in range(n) if refunds and rng.random() < 0.6}
+        self.rhops = sorted(hops)
+        refund = {self.pks[i]: E.public_key(self.rseeds[i]) for i in hops} or None
+        old = T.time
+        T.time = lambda: CREATE
+        try:
+            self.res = T.setup_amhl(seed, list(self.pks), refund_pubkeys=refund, timeout=TIMEOUT)
+        finally:
+            T.time = old
         self.refund = refund or {}
         self.setup = AMHL.setup(n, seed)
         self.y = list(self.setup[0])
@@ -71,7 +85,21 @@ class Chain:
         return F.run_auth_scripts([wit, bytes(lock2.bytes)], dict(self.sf[hop]))
 
 
+    def attempt_refund(self, hop, j, tm):
+        """hop j's refund key signs for the refund branch of hop `hop`'s lock, just before / after the timeout"""
+        F, T, _ = _impl()
+        t = CREATE + TIMEOUT + (1 if tm == 'after' else -1)
+        wit = T.make_ptlc_refund_witness(self.rseeds[j], dict(self.sf[hop]))
+        old = F.time
+        F.time = lambda: t
+        try:
+            return F.run_auth_scripts([bytes(wit.bytes), bytes(self.res[self.pks[hop]][1].bytes)], {**self.sf[hop], 'timestamp': t})
+        finally:
+            F.time = old
+
+
 def chain_for(n, tag=0, refunds=False):
+    refunds = frozenset(refunds) if isinstance(refunds, (set, frozenset, list, tuple)) else refunds
     key = (n, tag, refunds)
     if key not in _chains:
         rng = random.Random(f'chain{n}/{tag}')
@@ -88,9 +116,11 @@ def scalar_of(a, b, nm, ix):
 
 
 def run_mc(k):
-    a, b = chain_for(k['n'])
+    a, b = chain_for(k['n'], refunds=frozenset(k['refunds']))
     if a.problems:
         return 'setup:' + a.problems[0], None
+    if k['nm'] == 'F':
+        return ('opens' if a.attempt_refund(k['hop'], k['ix'], k['tm']) else 'fails'), None
     return ('opens' if a.attempt(k['hop'], scalar_of(a, b, k['nm'], k['ix'])) else 'fails'), None
 
 
@@ -102,7 +132,7 @@ def record_random(args):
         n = r.choice([2, 3, 4, 5, 6, 8])
         a, b = chain_for(n, tag=r.randrange(3) + 1000 * seed, refunds=r.random() < 0.5)
         if a.problems:
-            out.append({'n': n, 'hop': 0, 'nm': 'K', 'ix': 0, 'got': 'setup:' + a.problems[0]})
+            out.append({'n': n, 'hop': 0, 'nm': 'K', 'ix': 0, 'tm': '', 'refunds': a.rhops, 'got': 'setup:' + a.problems[0]})
             continue
         # a random release order: every hop is tried with every scalar released so far
         for _ in range(6):
@@ -110,7 +140,13 @@ def record_random(args):
             nm = r.choice(['K', 'K', 'K', 'y', 'B'])
             ix = r.randrange(1, n) if nm == 'y' else r.randrange(n)
             got = a.attempt(hop, scalar_of(a, b, nm, ix))
-            out.append({'n': n, 'hop': hop, 'nm': nm, 'ix': ix, 'got': 'opens' if got else 'fails'})
+            out.append({'n': n, 'hop': hop, 'nm': nm, 'ix': ix, 'tm': '', 'refunds': a.rhops, 'got': 'opens' if got else 'fails'})
+        for _ in range(2):
+            hop, j, tm = r.randrange(n), r.randrange(n), r.choice(['before', 'after'])
+            if r.random() < 0.5:
+                j = hop
+            got = a.attempt_refund(hop, j, tm)
+            out.append({'n': n, 'hop': hop, 'nm': 'F', 'ix': j, 'tm': tm, 'refunds': a.rhops, 'got': 'opens' if got else 'fails'})
     return out
 
 
@@ -118,7 +154,8 @@ def main(tier: str, seed: int) -> int:
     rep = Report('C18', tier, seed)
     rep.rule = ('MC (Amhl.tla on SymCrypto.tla: a state machine in which any claimant may try to open any hop with any scalar known at '
                 'that point - the final key, the partial secrets of the intermediate parties, a second chain\'s scalars, and what '
-                'earlier openings released): chains of 2..N hops, every interleaving; invariants OnlyRightToLeft, WrongScalarFails, '
+                'earlier openings released; and the holder of any hop\'s refund key may try the refund branch of any hop before / after the '
+                'timeout): chains of 2..N hops x every subset of hops having refund keys (PTLC locks), every interleaving; invariants RefundOnlyOwn, OnlyRightToLeft, WrongScalarFails, '
                 'RightScalarOnly, ReleaseExact, SetupConsistent, CascadeCompletes. Every attempt of every reachable state is '
                 'replayed on a real chain: setup_amhl, make_adapter_witness per hop, decrypt_adapter with the concrete scalar, '
                 'run_auth_scripts on that hop\'s signature lock; the real release cascade (decrypt_adapter + '
@@ -127,12 +164,12 @@ def main(tier: str, seed: int) -> int:
                 'keys (PTLC locks), random attempt orders, judged by TLC.')
     rep.assumptions = ['symbolic algebra', 'party 0 (the originator) is the payer of hop 0 and samples every secret: its partial secret is not an adversarial input']
     quick = tier == 'quick'
-    scncheck.mc(rep, 'Amhl', 'mc', INV, run_mc, consts={'MaxHops': 4 if quick else 5}, workers=8)
+    scncheck.mc(rep, 'Amhl', 'mc', INV, run_mc, consts={'MaxHops': 5 if quick else 6, 'MaxRefundHops': 4 if quick else 5}, workers=8)
     import multiprocessing as mp
-    n = 400 if quick else 6000
+    n = 2000 if quick else 12000
     with mp.get_context('fork').Pool(14) as pool:
         cases = [c for ch in pool.map(record_random, [(seed * 67 + i, n // 28) for i in range(28)]) for c in ch]
-    scncheck.judge(rep, 'Amhl', [], cases, 'random AMHL attempts', consts={'MaxHops': 0})
+    scncheck.judge(rep, 'Amhl', [], cases, 'random AMHL attempts', consts={'MaxHops': 0, 'MaxRefundHops': 0})
     return rep.finish()
 
 
